@@ -146,6 +146,18 @@ def templates():
     t['strings (205, 208) and a skipped local descriptor (206)'] = (
         [OP(205004), OP(208002), E(1015, 'STATION OR SITE NAME', 'CCITT IA5', 32), OP(208000), OP(206009), E(12192, 'LOCAL', 'K', 9), T()],
         [b'TEXT', b'AB', 300, 2801])
+    t['203 new reference values with 207 in force'] = (
+        [OP(203012), T(), OP(203255), OP(207001), T(), OP(207000), T(), OP(203000), T()], [-100, 2801, 2801, 2801])
+    t['203 new reference value of zero'] = (
+        [OP(203010), E(12104, 'DRY BULB', 'K', 12, 1, -50), OP(203255), E(12104, 'DRY BULB', 'K', 12, 1, -50), OP(203000), E(12104, 'DRY BULB', 'K', 12, 1, -50)],
+        [0, 2801, 2801])
+    t['operators do not touch code tables and strings'] = (
+        [OP(201130), OP(202129), OP(207001), E(20003, 'PRESENT WEATHER', 'CODE TABLE', 9), E(1015, 'STATION OR SITE NAME', 'CCITT IA5', 32), T(), OP(207000), OP(202000),
+         OP(201000), T()], [5, b'ABCD', 2801, 2801])
+    t['nested associated fields (204 twice)'] = (
+        [OP(204002), E(31021, 'ASSOCIATED FIELD SIGNIFICANCE', 'CODE TABLE', 6), OP(204003), E(31021, 'ASSOCIATED FIELD SIGNIFICANCE', 'CODE TABLE', 6), T(), OP(204000),
+         T(12103), OP(204000), T()], [1, 2, 9, 2801, 3, 2750, 2801])
+    t['missing values'] = ([T(), E(20003, 'PRESENT WEATHER', 'CODE TABLE', 9), E(20004, 'PAST WEATHER', 'FLAG TABLE', 1), T(12103)], [None, None, 1, 2750])
     return t
 
 
